@@ -275,6 +275,12 @@ impl<'a, R: RealNumberInternalTrait> Interpreter<'a, R> {
         }
         let mut current_procedure = None;
         loop {
+            #[cfg(ruschm_verif)]
+            if !crate::verif::step() {
+                return error!(LogicError::Extension(
+                    crate::verif::FUEL_MESSAGE.to_string()
+                ));
+            }
             match if current_procedure.is_none() {
                 initial_procedure
             } else {
